@@ -270,6 +270,11 @@ Proof.
       rewrite takez_all by (unfold gheight; lia). rewrite Ef, Hf. auto. }
   rewrite E1.
   destruct (WF_content_grid _ _ W1 C1) as (G1 & Eh1 & Ec1).
+  (* a well-formed canvas has rows: the 0-row clause does not fire *)
+  assert (De : drop_empty c1 t b = c1).
+  { unfold drop_empty. pose proof (WF_rows_pos _ W1) as Hp.
+    replace (shards_rows (cshards c1) =? 0) with false by (symmetry; apply Z.eqb_neq; lia). now rewrite andb_false_r. }
+  rewrite De.
   assert (gwidth (takez (gheight (gg gv) - tt0 - bb0) (dropz tt0 (gg gv))) = gwidth (gg gv)) as Ew1.
   { destruct G as (_ & _ & Fw). apply gwidth_of_rows; [destruct G1; unfold gheight in *; lia|]. apply Forall_takez, Forall_dropz, Fw. }
   set (w := shards_cols (cshards c1)) in *. assert (w = gwidth (gg gv)) as Hw by lia. assert (0 < w) by (destruct G as (_ & ? & _); lia).
